@@ -7,16 +7,23 @@ CONSTANTS WordSel, MaxBatch, MaxDepth, OpKinds
 VARIABLES objs, cls, hist, depth
 vars == <<objs, cls, hist, depth>>
 
+W(pfx, sfx, ab) == [pfx |-> pfx, bare |-> 0, exact |-> "none", sfx |-> sfx, ab |-> ab]
 WordTable == <<
-    [f |-> "I", ab |-> 0],        \* 1
-    [f |-> "D", ab |-> 0],        \* 2
-    [f |-> "l", ab |-> 0],        \* 3
-    [f |-> "L", ab |-> 0],        \* 4
-    [f |-> "lib", ab |-> 0],      \* 5
-    [f |-> "plain", ab |-> 0],    \* 6
-    [f |-> "once", ab |-> 0],     \* 7
-    [f |-> "isys", ab |-> 0],     \* 8
-    [f |-> "lib", ab |-> 1]       \* 9
+    W("I", "none", 0),                \* 1  -Iinc
+    W("D", "none", 0),                \* 2  -DFOO
+    W("l", "none", 0),                \* 3  -lfoo
+    W("L", "none", 0),                \* 4  -Llib
+    W("none", "a", 0),                \* 5  libfoo.a
+    W("none", "none", 0),             \* 6  -O2
+    [W("none", "none", 0) EXCEPT !.exact = "once"],   \* 7  -pthread
+    W("isys", "none", 0),             \* 8  -isystemdir
+    W("none", "so", 1),               \* 9  /abs/libbar.so
+    \* texts matched by several rules of a class at once
+    W("D", "so", 0),                  \* 10 -DSUFFIX=.so     clike: override-type; base, d: a library file name
+    W("L", "a", 0),                   \* 11 -L/opt/vendor.a  clike: prepend+override; d: prepend, once-only; base: once-only
+    W("I", "vso", 0),                 \* 12 -I/x/libinc.so.1 clike, d: prepend+override; base: once-only
+    W("l", "a", 0),                   \* 13 -l:libfoo.a      clike: once-only by prefix and suffix; base, d: by suffix
+    [W("D", "none", 0) EXCEPT !.bare = 1]             \* 14 "-D" alone
 >>
 SeqsOver(S, n) == UNION { [1..k -> S] : k \in 0..n }
 Batches == SeqsOver(WordSel, MaxBatch)
@@ -47,12 +54,44 @@ Alone(cl, ops, L) ==
     ELSE Alone(cl, Tail(ops), StepC(<<L>>, <<cl>>, [Head(ops) EXCEPT !.o = 1], WordTable).objs[1])
 ClassificationIsPerClass == \A o \in 1..3 : objs[o] = Alone(cls[o], hist[o], <<>>)
 
+\* the statement of the property, worded with the SPELLING of an argument instead of its classification:
+\* after `list += <<w>>` with w spelled as an override-type argument of the list's class (-I -L -D -U -isystem
+\* for C-like lists, -I for D lists; whatever the value looks like), w occurs exactly once, in front of
+\* (prepend spelling) / behind (otherwise) every other override-spelled argument of the same side that was in
+\* the list before - "for duplicated settings the later-added one takes effect"
+PosId(R, n) == CHOOSE i \in 1..Len(R) : R[i].id = n
+OverrideSpelled(c, n) == WordTable[n].pfx \in OverPfx(c) /\ WordTable[n].bare = 0
+FrontSpelled(c, n) == WordTable[n].pfx \in PrependPfx(c)
+StatementLaterSettingWins ==
+    \A o \in 1..3 : (hist[o] # <<>> /\ hist[o][Len(hist[o])].k = "iadd") =>
+        LET c  == cls[o]
+            op == hist[o][Len(hist[o])]
+            R  == objs[o]
+        IN \A j \in 1..Len(op.b) : LET n == op.b[j] IN OverrideSpelled(c, n) =>
+              /\ Cardinality({ i \in 1..Len(R) : R[i].id = n }) = 1
+              /\ \A i \in 1..Len(R) :
+                    (R[i].id # n /\ OverrideSpelled(c, R[i].id) /\ FrontSpelled(c, R[i].id) = FrontSpelled(c, n)
+                     /\ \A h \in 1..Len(op.b) : op.b[h] # R[i].id)
+                    => IF FrontSpelled(c, n) THEN PosId(R, n) < i ELSE PosId(R, n) > i
+\* a text NOT spelled with a table or prepend prefix of the class is never moved or removed by a later +=
+\* (library file names, also those that look like options of another compiler family)
+UnprefixedNeverMoved ==
+    \A o \in 1..3 : (hist[o] # <<>> /\ hist[o][Len(hist[o])].k = "iadd") =>
+        LET c      == cls[o]
+            before == Alone(c, SubSeq(hist[o], 1, Len(hist[o]) - 1), <<>>)
+            plain(a) == WordTable[a.id].pfx \notin (TablePfx(c) \cup PrependPfx(c))
+        IN SelectSeq(before, plain) = SubSeq(SelectSeq(objs[o], plain), 1, Len(SelectSeq(before, plain)))
+
 \* the classes really differ on the shared words: the same single += gives different lists
 ClassesDiffer ==
     LET one(cl, b) == StepC(<< <<>> >>, <<cl>>, Op("iadd", 1, b, 0), WordTable).objs[1] IN
     /\ Len(one("clike", <<2, 2>>)) = 1 /\ Len(one("base", <<2, 2>>)) = 2 /\ Len(one("d", <<2, 2>>)) = 2
     /\ Len(one("clike", <<4, 4>>)) = 1 /\ Len(one("d", <<4, 4>>)) = 2
     /\ one("clike", <<6, 1>>)[1].id = 1 /\ one("base", <<6, 1>>)[1].id = 6 /\ one("d", <<6, 1>>)[1].id = 1
+    \* also on the texts matched by several rules
+    /\ Len(one("clike", <<10, 10>>)) = 1 /\ Len(one("base", <<10, 10>>)) = 1 /\ Len(one("d", <<10, 10>>)) = 1
+    /\ one("clike", <<10, 2, 10>>)[2].id = 10 /\ one("base", <<10, 2, 10>>)[1].id = 10 /\ one("d", <<10, 2, 10>>)[1].id = 10
+    /\ one("clike", <<2, 11>>)[1].id = 11 /\ one("d", <<2, 11>>)[1].id = 11 /\ one("base", <<2, 11>>)[1].id = 2
 
 IdxOp(op) == [k |-> op.k, o |-> op.o, b |-> op.b, i |-> op.i]
 EmitSpace == TLCGet("stats").diameter >= 0 /\
